@@ -22,7 +22,8 @@ VER_ATTRS = [S('1.0.0'), S('1.9.0'), S('1.10.0'), S('2.0.0'), S('1.0.0-beta'), S
              S('1.0.0-1'), S('1.0.0-2'), S('1.0.0-10'), S('1.0.0+build5'), S('1.0.0-beta+exp.sha'), S('1.0'), S('v1.0.0'),
              S('1.0.0.'), S('01.0.0'), S('1.0.0-01'), S('1.0.0-'), S('1.0.0+'), S('18446744073709551615.0.0'),
              S('18446744073709551616.0.0'), S('1.0.0-a_b'), S('1..0'), S(' 1.0.0'), S('1.0.0-rc.1'), S('1.0.0-rc.1.1'), S('0.0.0')]
-STRINGER_ATTRS = [('str', b'abc'), ('str', b'ABC'), ('str', b'1.0.0'), ('str', b''), ('strptr', b'abc'), ('strpanic',), ('strnilptr',), ('strselfpanic',)]
+STRINGER_ATTRS = [('str', b'abc'), ('str', b'ABC'), ('str', b'1.0.0'), ('str', b''), ('strptr', b'abc'), ('strpanic',), ('strnilptr',), ('strselfpanic',),
+                  ('jnum', b'12'), ('jnum', b'2.25'), ('jnum', b'1'), ('jnum', b'abc')]
 MISC_ATTRS = [('nil',), ('b', True), ('b', False), ('m', []), ('m', [(b'a', I(1))]), ('nilmap',)] + [('o', t) for t in range(21)]
 ABSENT = ('absent',)   # pseudo value: key not in the object
 
@@ -335,6 +336,13 @@ FIXED_TEXTS = [
     'x eq 1 and y', 'x and y', 'x eq 1 and and y eq 2', 'x eq 1 or or y eq 2', '()', '( )', 'not ()', 'x eq (1)', 'x eq 1.0e5', 'x eq 1.0e', 'x eq 1.e5',
     'x eq 0.5', 'x eq .5', 'x eq 00.5', 'x eq 0', 'x eq 00', 'x eq -0', 'x eq 0.0.0', 'x eq 1.02.3', 'x.y.z.w pr', 'x.y. pr', '.x pr', 'x pr pr', 'x eq 1 pr',
 ]
+
+# reserved words in attribute-path positions (after a dot, before a dot, as the whole name, as a prefix)
+KEYWORDS = ['pr', 'not', 'NOT', 'and', 'or', 'true', 'false', 'null', 'in', 'IN', 'eq', 'EQ', 'ne', 'NE', 'gt', 'GT', 'lt', 'LT', 'ge', 'GE',
+            'le', 'LE', 'co', 'CO', 'sw', 'SW', 'ew', 'EW']
+for _k in KEYWORDS:
+    FIXED_TEXTS += ['a.%s eq 1' % _k, 'a.%s pr' % _k, '%s.a eq 1' % _k, 'a.%s.b pr' % _k, 'a.%sx eq 1' % _k, 'a.x%s pr' % _k, '%s eq 1' % _k,
+                    'a.%s eq 1 and b pr' % _k, '(a.%s pr)' % _k, 'a eq 1 or b.%s in [1]' % _k]
 
 # ----------------------------------------------------------------------------
 # corpus: the inputs of every defect found so far (fixed entries of known_findings.json stay here)
